@@ -3,6 +3,7 @@ package cli
 import (
 	"flag"
 	"fmt"
+	"io"
 	"os"
 	"runtime/debug"
 	"runtime/pprof"
@@ -53,6 +54,43 @@ func (w *outWriter) Write(p []byte) (int, error) {
 		w.err = err
 	}
 	return n, err
+}
+
+// inputFile is an input file that is opened by the first read
+// inputFile is an input file that is opened by the first read and closed at
+// its end, so that only the file being read is open
+type inputFile struct {
+	path    string
+	fp      *os.File
+	openErr error
+	atEnd   bool
+}
+
+func (f *inputFile) Read(p []byte) (int, error) {
+	if f.atEnd {
+		return 0, io.EOF
+	}
+	if f.fp == nil && f.openErr == nil {
+		f.fp, f.openErr = os.Open(f.path)
+	}
+	if f.openErr != nil {
+		return 0, f.openErr
+	}
+	n, err := f.fp.Read(p)
+	if err == io.EOF {
+		f.atEnd = true
+		f.Close()
+	}
+	return n, err
+}
+
+func (f *inputFile) Close() error {
+	if f.fp == nil {
+		return nil
+	}
+	fp := f.fp
+	f.fp = nil
+	return fp.Close()
 }
 
 type multiFlag []string
@@ -140,6 +178,7 @@ func Run(version string) (exitCode int) {
 	}
 
 	inputFiles := make([]lang.InputFile, 0)
+	openedFiles := make([]*inputFile, 0)
 	for _, filePath := range filePaths {
 		if readStdin {
 			inputFiles = append(inputFiles, lang.InputFile{
@@ -147,12 +186,12 @@ func Run(version string) (exitCode int) {
 				Reader: os.Stdin,
 			})
 		} else {
-			fp, err := os.Open(filePath)
-			if err != nil {
-				fmt.Fprintln(os.Stderr, err)
-				return 1
-			}
+			// opened when the run gets to it: the files before it are processed
+			// first, and a pipe that nobody writes to yet holds up nothing that
+			// comes before it (BEGIN rules, earlier files, exit)
+			fp := &inputFile{path: filePath}
 			defer fp.Close()
+			openedFiles = append(openedFiles, fp)
 			inputFiles = append(inputFiles, lang.InputFile{
 				Name:   filePath,
 				Reader: fp,
@@ -163,6 +202,13 @@ func Run(version string) (exitCode int) {
 	stdout := &outWriter{}
 	ev, err := lang.EvalProgram(progSrc, inputFiles, rValues, stdout, false)
 	if err != nil {
+		for _, fp := range openedFiles {
+			if fp.openErr != nil {
+				// the file could not be opened: that is the error, not its JSON
+				fmt.Fprintln(os.Stderr, fp.openErr)
+				return 1
+			}
+		}
 		printError(err)
 		return 1
 	}
